@@ -76,6 +76,7 @@ class Reply(SerializableMixin, DictableMixin):
     def __init__(self, code=None, text=None):
         self.code = code
         self.text = text
+        self._multiline_code = None
 
     def parse(self, data):
         for line in data.splitlines(False):
@@ -84,7 +85,13 @@ class Reply(SerializableMixin, DictableMixin):
             if not match:
                 raise ProtocolError('Failed to parse reply.')
 
-            if match.group(1) and match.group(2) == b' ':
+            if match.group(1) and match.group(2) == b'-' and self.text is None:
+                # Only a line with the code of the first line ends a
+                # multi-line reply (RFC 959 section 4.2).
+                self._multiline_code = match.group(1)
+
+            if match.group(1) and match.group(2) == b' ' \
+                    and self._multiline_code in (None, match.group(1)):
                 if self.code is not None:
                     raise ProtocolError('Reply has more than one final line.')
 
